@@ -1,7 +1,7 @@
 (* C10_Proofs.v — invariants of the clientProcessRunner transition system over ARBITRARY
    action lists, and the proofs of the property theorems stated in C10_Props.v. *)
 From Coq Require Import Lia.
-From V Require Import C10_Spec.
+From V Require Import C10_Consts C10_Spec.
 Open Scope N_scope.
 
 (* ====================================================================== *)
@@ -367,3 +367,522 @@ Proof. apply inv_run_from. apply inv_init. Qed.
 
 Lemma inv_run h : Inv (run h).
 Proof. apply (inv_run_with true). Qed.
+
+(* ====================================================================== *)
+(* exactly once                                                           *)
+(* ====================================================================== *)
+Lemma times_fired_cnt i s : times_fired i s = cnt i s.(fired).
+Proof. reflexivity. Qed.
+
+Theorem at_most_once_proof : forall h i, (times_fired i (run h) <= 1)%nat.
+Proof.
+  intros h i. pose proof (i_good _ (inv_run h) i) as G. unfold good in G. rewrite times_fired_cnt.
+  destruct (phase_of (run h) i) as [| | |[e|]]; lia.
+Qed.
+
+Theorem exactly_once_proof : forall h i,
+  reader_exited (run h) ->
+  (accepted (run h) i -> times_fired i (run h) = 1%nat) /\
+  (refused (run h) i -> times_fired i (run h) = 0%nat) /\
+  (not_called (run h) i -> times_fired i (run h) = 0%nat).
+Proof.
+  intros h i Hr. pose proof (inv_run h) as H. pose proof (i_good _ H i) as G. unfold good in G.
+  rewrite (i_done _ H Hr) in G. simpl in G. rewrite times_fired_cnt.
+  unfold accepted, refused, not_called. repeat split.
+  - intros E. rewrite E in G. tauto.
+  - intros [e E]. rewrite E in G. tauto.
+  - intros E. rewrite E in G. tauto.
+Qed.
+
+(* a request that is still inside its write when the reader has exited has been answered too *)
+Theorem nothing_pending_after_exit_proof : forall h,
+  reader_exited (run h) -> (run h).(pending) = [] /\ (run h).(closed) = true.
+Proof.
+  intros h Hr. pose proof (inv_run h) as H. split; [apply (i_done _ H Hr)|].
+  pose proof (i_closed _ H) as C. unfold reader_exited in Hr. rewrite Hr in C. exact C.
+Qed.
+
+(* ====================================================================== *)
+(* things that never go back                                              *)
+(* ====================================================================== *)
+Ltac break :=
+  repeat match goal with
+  | |- context [match ?x with _ => _ end] => destruct x eqn:?
+  end.
+
+Ltac crush_step a :=
+  destruct a; simpl; unfold reader_step, reader_stops; break; simpl; auto; try congruence.
+
+Lemma err_sticky X s a : s.(err) <> None -> (step_with X s a).(err) <> None.
+Proof. intros H. crush_step a; destruct (err s); simpl; congruence. Qed.
+
+Lemma closed_sticky X s a : s.(closed) = true -> (step_with X s a).(closed) = true.
+Proof. intros H. crush_step a. Qed.
+
+Lemma term_sticky s a : s.(term) = true -> (step s a).(term) = true.
+Proof. intros H. unfold step. crush_step a. Qed.
+
+Lemma done_sticky X s a : s.(rd) = RDone -> (step_with X s a).(rd) = RDone.
+Proof. intros H. crush_step a. Qed.
+
+Lemma noticed_sticky X s a : s.(noticed) = true -> (step_with X s a).(noticed) = true.
+Proof. intros H. crush_step a. Qed.
+
+Lemma sticky_run {P : st -> Prop} (X : bool) :
+  (forall s a, P s -> P (step_with X s a)) -> forall h s, P s -> P (fold_left (step_with X) h s).
+Proof. intros Hs h. induction h as [|a h IH]; intros s H; simpl; auto. Qed.
+
+Lemma run_app h h' : run (h ++ h') = run_from (run h) h'.
+Proof. unfold run, run_from. apply fold_left_app. Qed.
+
+(* once err is set or the send side is closed, a request whose sendRequest has not been
+   called yet can only be refused *)
+Definition shut (s : st) : Prop := s.(err) <> None \/ s.(closed) = true.
+Definition barred (s : st) (i : N) : Prop :=
+  (s.(err) <> None /\ (s.(phase_of) i = Idle \/ exists e, s.(phase_of) i = Ret (Some e))) \/
+  (s.(closed) = true /\ (s.(phase_of) i = Idle \/ s.(phase_of) i = Checked \/ exists e, s.(phase_of) i = Ret (Some e))).
+
+Lemma barred_step X s a i : barred s i -> barred (step_with X s a) i.
+Proof.
+  intros [[He Hp]|[Hc Hp]].
+  - left. split; [apply err_sticky; exact He|].
+    destruct a; simpl; auto; try (unfold reader_step, reader_stops; break; simpl; auto; fail).
+    + destruct (phase_of s i0) eqn:P0; auto. simpl. upd i i0; auto.
+      destruct (err s); [right; eauto|congruence].
+    + destruct (phase_of s i0) eqn:P0; auto. break; simpl; auto; upd i i0; auto;
+        destruct Hp as [Hp|[e Hp]]; congruence.
+    + destruct (phase_of s i0) eqn:P0; auto. break; simpl; auto; upd i i0; auto;
+        destruct Hp as [Hp|[e Hp]]; congruence.
+    + destruct (phase_of s i0) eqn:P0; auto. break; simpl; auto; upd i i0; auto;
+        destruct Hp as [Hp|[e Hp]]; congruence.
+  - right. split; [apply closed_sticky; exact Hc|].
+    destruct a; simpl; auto; try (unfold reader_step, reader_stops; break; simpl; auto; fail).
+    + destruct (phase_of s i0) eqn:P0; auto. simpl. upd i i0; auto.
+      destruct (err s); [right; right; eauto|auto].
+    + destruct (phase_of s i0) eqn:P0; auto. destruct (mu s); auto. rewrite Hc. simpl. upd i i0; auto.
+      right; right; eauto.
+    + destruct (phase_of s i0) eqn:P0; auto. break; simpl; auto; upd i i0; auto;
+        destruct Hp as [Hp|[Hp|[e Hp]]]; congruence.
+    + destruct (phase_of s i0) eqn:P0; auto. break; simpl; auto; upd i i0; auto;
+        destruct Hp as [Hp|[Hp|[e Hp]]]; congruence.
+Qed.
+
+Lemma barred_run s h i : barred s i -> barred (run_from s h) i.
+Proof. unfold run_from. revert s. induction h as [|a h IH]; intros s H; simpl; auto. apply IH. apply barred_step. exact H. Qed.
+
+Theorem refused_after_proof : forall h h' i,
+  shut (run h) -> not_called (run h) i ->
+  let s := run (h ++ h') in
+  ~ accepted s i /\ s.(phase_of) i <> Writing /\ times_fired i s = 0%nat.
+Proof.
+  intros h h' i Hs Hn s. subst s. rewrite run_app.
+  assert (B : barred (run h) i).
+  { unfold not_called in Hn. destruct Hs as [Hs|Hs]; [left|right]; split; auto. }
+  apply (barred_run _ h') in B.
+  pose proof (inv_run (h ++ h')) as H. rewrite run_app in H.
+  pose proof (i_good _ H i) as G. unfold good in G. unfold accepted. rewrite times_fired_cnt.
+  destruct B as [[_ Hp]|[_ Hp]].
+  - destruct Hp as [Hp|[e Hp]]; rewrite Hp in *; repeat split; try congruence; tauto.
+  - destruct Hp as [Hp|[Hp|[e Hp]]]; rewrite Hp in *; repeat split; try congruence; tauto.
+Qed.
+
+(* a failed reader has set err, marked the runner terminated and asked the process to stop *)
+Definition failed_marks (s : st) : Prop :=
+  match s.(rd) with
+  | RStop1 r | RStop2 r => r <> REof -> s.(err) <> None /\ s.(term) = true /\ s.(aborted) = true
+  | _ => True
+  end.
+
+Lemma failed_marks_step s a : failed_marks s -> failed_marks (step s a).
+Proof.
+  intros H. unfold failed_marks, step in *.
+  destruct (rd s) eqn:Rd; destruct a; simpl; rewrite ?Rd; unfold reader_step, reader_stops; break; simpl in *;
+    rewrite ?Rd in *; auto; try congruence;
+    repeat match goal with
+           | Z : RStop1 _ = RStop1 _ |- _ => inversion Z; clear Z; subst
+           | Z : RStop2 _ = RStop2 _ |- _ => inversion Z; clear Z; subst
+           end; auto;
+    try (intros Z; destruct (H Z) as (E1 & E2 & E3); repeat split; auto; destruct (err s); simpl; congruence);
+    try (intros Z; repeat split; auto; destruct (err s); simpl; congruence).
+Qed.
+
+Lemma failed_marks_run h : failed_marks (run h).
+Proof.
+  unfold run. apply (sticky_run true (P := failed_marks)).
+  - intros s a. apply failed_marks_step.
+  - unfold failed_marks; simpl; auto.
+Qed.
+
+Theorem after_failure_proof : forall h h',
+  reader_failed (run h) ->
+  shut (run (h ++ h')) /\ is_running (run (h ++ h')) = false.
+Proof.
+  intros h h' (r & Hr & Hrd). pose proof (failed_marks_run h) as FM. unfold failed_marks in FM.
+  assert (E : err (run h) <> None /\ term (run h) = true /\ aborted (run h) = true).
+  { destruct Hrd as [Z|Z]; rewrite Z in FM; auto. }
+  destruct E as (E1 & E2 & _).
+  rewrite run_app. unfold run_from. split.
+  - left. apply (sticky_run true (P := fun s => err s <> None)); auto. intros; apply err_sticky; auto.
+  - unfold is_running. rewrite (sticky_run true (P := fun s => term s = true)); auto. intros; apply term_sticky; auto.
+Qed.
+
+(* ====================================================================== *)
+(* isRunning                                                              *)
+(* ====================================================================== *)
+Definition notice_marks (s : st) : Prop := s.(noticed) = true -> s.(term) = true.
+
+Lemma notice_marks_step s a : notice_marks s -> notice_marks (step s a).
+Proof.
+  unfold notice_marks, step. intros H.
+  destruct a; simpl; unfold reader_step, reader_stops; break; simpl in *; auto.
+Qed.
+
+Lemma notice_marks_run h : notice_marks (run h).
+Proof. unfold run. apply (sticky_run true (P := notice_marks)); [intros; apply notice_marks_step; auto|discriminate]. Qed.
+
+Lemma term_run s h : s.(term) = true -> (run_from s h).(term) = true.
+Proof. unfold run_from. apply (sticky_run true (P := fun s => term s = true)). intros; apply term_sticky; auto. Qed.
+
+Theorem not_running_after_exit_proof : forall h h',
+  (run h).(noticed) = true -> is_running (run (h ++ h')) = false.
+Proof.
+  intros h h' Hn. rewrite run_app. unfold is_running. rewrite term_run; [reflexivity|].
+  apply notice_marks_run. exact Hn.
+Qed.
+
+Theorem not_running_after_stop_proof : forall h h', is_running (run (h ++ Stop :: h')) = false.
+Proof.
+  intros h h'. rewrite run_app.
+  change (run_from (run h) (Stop :: h')) with (run_from (step (run h) Stop) h').
+  unfold is_running. rewrite term_run; reflexivity.
+Qed.
+
+(* the pinned tree (exit notice stores false): the client is gone, the reader has exited,
+   everybody has been told - and isRunning() is still true *)
+Theorem pinned_is_running_refuted_proof :
+  exists h, let s := run_with false h in
+    reader_exited s /\ s.(alive) = false /\ s.(noticed) = true /\ is_running s = true.
+Proof.
+  exists [ProcExit false false; ExitNotice; RStep; RClose; RDrain]. vm_compute. repeat split; reflexivity.
+Qed.
+
+(* ====================================================================== *)
+(* waiting returns; nothing can get stuck                                 *)
+(* ====================================================================== *)
+Theorem wait_returns_proof : forall h,
+  reader_exited (run h) -> (step (run h) Wait).(wait_ret) <> None.
+Proof. intros h Hr. unfold reader_exited in Hr. unfold step. simpl. rewrite Hr. simpl. discriminate. Qed.
+
+Theorem writer_never_stuck_proof : forall h i,
+  (run h).(phase_of) i = Writing ->
+  (step (run h) (WriteOk i)).(phase_of) i = Ret None \/
+  exists r, (step (run h) (WriteFail i)).(phase_of) i = Ret r.
+Proof.
+  intros h i Ph. pose proof (inv_run h) as H. unfold step. simpl. rewrite Ph.
+  destruct (in_open (run h)) eqn:Io.
+  - left. destruct (alive (run h)) eqn:Al.
+    + simpl. unfold updf. rewrite N.eqb_refl. reflexivity.
+    + destruct (i_dead _ H Al) as (_ & Z & _). congruence.
+  - right. destruct (lookup (rname (run h) i) (pending (run h))); simpl; unfold updf; rewrite N.eqb_refl; eauto.
+Qed.
+
+Theorem parked_sender_returns_proof : forall h i,
+  reader_exited (run h) -> (run h).(mu) = None -> (run h).(phase_of) i = Checked ->
+  (step (run h) (SendLock i)).(phase_of) i = Ret (Some EClosed).
+Proof.
+  intros h i Hr Mu Ph. destruct (nothing_pending_after_exit_proof h Hr) as [_ Cl].
+  unfold step. simpl. rewrite Ph, Mu, Cl. simpl. unfold updf. rewrite N.eqb_refl. reflexivity.
+Qed.
+
+Record dead (s : st) : Prop := mkDead {
+  d_alive : s.(alive) = false; d_out : s.(out_open) = false;
+  d_in : s.(in_open) = false; d_buf : s.(buf) = [] }.
+
+Lemma exit_makes_dead s :
+  Inv s -> let s1 := step s (ProcExit false false) in
+  dead s1 /\ s1.(mu) = s.(mu) /\ s1.(rd) = s.(rd) /\ s1.(phase_of) = s.(phase_of).
+Proof.
+  intros H. unfold step. simpl. destruct (alive s) eqn:Al; simpl.
+  - repeat split; reflexivity.
+  - destruct (i_dead _ H Al) as (A & B & C). repeat split; auto.
+Qed.
+
+Lemma writefail_frees s i :
+  dead s -> s.(phase_of) i = Writing ->
+  let s2 := step s (WriteFail i) in dead s2 /\ s2.(mu) = None /\ s2.(rd) = s.(rd).
+Proof.
+  intros [A B C D] Ph. unfold step. simpl. rewrite Ph, C.
+  destruct (lookup (rname s i) (pending s)); simpl; repeat split; auto.
+Qed.
+
+Lemma rstep_dead t : dead t -> rd t = RRun ->
+  rd (step t RStep) = RStop1 REof /\ mu (step t RStep) = mu t.
+Proof.
+  intros [A B C D] Rd. unfold step. simpl. rewrite Rd. unfold reader_step. rewrite D. simpl. rewrite B. simpl. auto.
+Qed.
+Lemma rstep_noop t : rd t <> RRun -> step t RStep = t.
+Proof. intros Rd. unfold step. simpl. destruct (rd t); congruence. Qed.
+Lemma rclose_fact t r : rd t = RStop1 r -> mu t = None ->
+  rd (step t RClose) = RStop2 r /\ mu (step t RClose) = None.
+Proof. intros Rd Mu. unfold step. simpl. rewrite Rd, Mu. simpl. auto. Qed.
+Lemma rclose_noop t : (forall r, rd t <> RStop1 r) -> step t RClose = t.
+Proof. intros Rd. unfold step. simpl. destruct (rd t) eqn:E; try reflexivity. exfalso. eapply Rd; eauto. Qed.
+Lemma rdrain_fact t r : rd t = RStop2 r ->
+  rd (step t RDrain) = RDone /\ mu (step t RDrain) = mu t.
+Proof. intros Rd. unfold step. simpl. rewrite Rd. simpl. auto. Qed.
+Lemma rdrain_noop t : (forall r, rd t <> RStop2 r) -> step t RDrain = t.
+Proof. intros Rd. unfold step. simpl. destruct (rd t) eqn:E; try reflexivity. exfalso. eapply Rd; eauto. Qed.
+
+Lemma reader_winds_down s :
+  dead s -> s.(mu) = None ->
+  let s' := run_from s [RStep; RClose; RDrain] in s'.(rd) = RDone /\ s'.(mu) = None.
+Proof.
+  intros Dd Mu. cbv zeta.
+  change (run_from s [RStep; RClose; RDrain]) with (step (step (step s RStep) RClose) RDrain).
+  destruct (rd s) eqn:Rd.
+  - destruct (rstep_dead s Dd Rd) as [R1 M1]. rewrite Mu in M1.
+    destruct (rclose_fact _ _ R1 M1) as [R2 M2].
+    destruct (rdrain_fact _ _ R2) as [R3 M3]. rewrite M2 in M3. auto.
+  - rewrite (rstep_noop s) by congruence.
+    destruct (rclose_fact _ _ Rd Mu) as [R2 M2].
+    destruct (rdrain_fact _ _ R2) as [R3 M3]. rewrite M2 in M3. auto.
+  - rewrite (rstep_noop s) by congruence. rewrite (rclose_noop s) by congruence.
+    destruct (rdrain_fact _ _ Rd) as [R3 M3]. rewrite Mu in M3. auto.
+  - rewrite (rstep_noop s) by congruence. rewrite (rclose_noop s) by congruence.
+    rewrite (rdrain_noop s) by congruence. auto.
+Qed.
+
+Theorem no_deadlock_proof : forall h,
+  let s' := run_from (run h) (wind_down (run h)) in
+  reader_exited s' /\ s'.(mu) = None /\ s'.(pending) = [] /\ (forall i, s'.(phase_of) i <> Writing).
+Proof.
+  intros h s'. pose proof (inv_run h) as H.
+  assert (Hinv : Inv s').
+  { unfold s', run_from. apply inv_run_from. exact H. }
+  assert (Hrd : s'.(rd) = RDone /\ s'.(mu) = None).
+  { unfold s', wind_down.
+    destruct (exit_makes_dead _ H) as (Dd & Mu1 & Rd1 & Ph1).
+    destruct (mu (run h)) as [i|] eqn:Mu.
+    - change (run_from (run h) (ProcExit false false :: [WriteFail i] ++ [RStep; RClose; RDrain]))
+        with (run_from (step (step (run h) (ProcExit false false)) (WriteFail i)) [RStep; RClose; RDrain]).
+      assert (Ph : phase_of (step (run h) (ProcExit false false)) i = Writing).
+      { rewrite Ph1. apply (i_mu _ H). exact Mu. }
+      destruct (writefail_frees _ i Dd Ph) as (Dd2 & Mu2 & _).
+      apply (reader_winds_down _ Dd2 Mu2).
+    - change (run_from (run h) (ProcExit false false :: [] ++ [RStep; RClose; RDrain]))
+        with (run_from (step (run h) (ProcExit false false)) [RStep; RClose; RDrain]).
+      apply (reader_winds_down _ Dd). exact Mu1. }
+  destruct Hrd as [Hrd Hmu]. repeat split; auto.
+  - apply (i_done _ Hinv Hrd).
+  - intros i Hi. apply (i_mu _ Hinv) in Hi. congruence.
+Qed.
+
+(* ====================================================================== *)
+(* whose response: the callback gets the request's own name, and a response *)
+(* is a message the client really wrote                                   *)
+(* ====================================================================== *)
+Definition out_of (a : action) : bytes := match a with COut bs => bs | _ => [] end.
+
+Lemma written_app h a : written (h ++ [a]) = written h ++ out_of a.
+Proof.
+  induction h as [|b h IH]; simpl.
+  - destruct a; simpl; rewrite ?app_nil_r; reflexivity.
+  - destruct b; rewrite IH; try reflexivity. rewrite app_assoc. reflexivity.
+Qed.
+
+Lemma client_wrote_more h a n tag : client_wrote h n tag -> client_wrote (h ++ [a]) n tag.
+Proof.
+  intros (pre & pfx & m & post & E & L & D & Dm). exists pre, pfx, m, (post ++ out_of a).
+  rewrite written_app, E. rewrite <- !app_assoc. auto.
+Qed.
+
+Lemma next_item_msg b m rest :
+  next_item b = IMsg m rest ->
+  exists pfx, b = pfx ++ m ++ rest /\ length pfx = 4%nat /\ be_decode pfx 0 = N.of_nat (length m).
+Proof.
+  unfold next_item, c10_prefix_len.
+  destruct (N.ltb_spec (N.of_nat (length b)) 4) as [|L4]; [discriminate|].
+  destruct (c10_max_response <? be_decode (firstn 4 b) 0); [discriminate|].
+  destruct (N.ltb_spec (N.of_nat (length (skipn 4 b))) (be_decode (firstn 4 b) 0)) as [|Ls]; [discriminate|].
+  assert (H4 : (4 <= length b)%nat) by lia.
+  assert (Hle : (N.to_nat (be_decode (firstn 4 b) 0) <= length (skipn 4 b))%nat).
+  { clear L4 H4. revert Ls. generalize (be_decode (firstn 4 b) 0). generalize (length (skipn 4 b)). intros y x Hx. lia. }
+  intros E. injection E as Em Er. subst m rest. exists (firstn 4 b).
+  rewrite firstn_skipn, firstn_skipn. split; [reflexivity|]. split.
+  - apply firstn_length_le. exact H4.
+  - rewrite firstn_length_le by exact Hle. rewrite N2Nat.id. reflexivity.
+Qed.
+
+Lemma next_item_over b rest : next_item b = IOver rest -> exists pfx, b = pfx ++ rest.
+Proof.
+  unfold next_item. destruct (N.of_nat (length b) <? c10_prefix_len); [discriminate|].
+  destruct (c10_max_response <? be_decode (firstn 4 b) 0).
+  - intros E. injection E as Er. subst rest. exists (firstn 4 b). rewrite firstn_skipn. reflexivity.
+  - destruct (N.of_nat (length (skipn 4 b)) <? be_decode (firstn 4 b) 0); discriminate.
+Qed.
+
+Lemma in_fired_cnt i o f : In (i, o) f -> (1 <= cnt i f)%nat.
+Proof.
+  intros H. apply in_split in H. destruct H as (f1 & f2 & ->).
+  change ((i, o) :: f2) with ([(i, o)] ++ f2). rewrite !cnt_app, cnt_one_same. lia.
+Qed.
+
+(* everything the reader has not consumed yet is a contiguous piece of what the client wrote,
+   and every response delivered so far is backed by a frame in the client's output *)
+Record Stream (h : list action) (s : st) : Prop := mkStream {
+  s_buf : exists p q, written h = p ++ s.(buf) ++ q /\ (s.(alive) && s.(out_open) = true -> q = []);
+  s_resp : forall i n tag, In (i, OResp n tag) s.(fired) -> s.(rname) i = n /\ client_wrote h n tag;
+  s_fail : forall i n e, In (i, OFail n e) s.(fired) -> s.(rname) i = n }.
+
+Lemma stream_init : Stream [] init.
+Proof. constructor; simpl; try tauto. exists [], []. auto. Qed.
+
+(* steps that neither touch the client's output, the callbacks nor the names *)
+Lemma stream_same h a s s' :
+  Stream h s -> out_of a = [] ->
+  s'.(buf) = s.(buf) -> s'.(fired) = s.(fired) -> s'.(rname) = s.(rname) ->
+  (s'.(alive) && s'.(out_open) = true -> s.(alive) && s.(out_open) = true) ->
+  Stream (h ++ [a]) s'.
+Proof.
+  intros [(p & q & E & Q) R F] Ho Eb Ef En Hao.
+  constructor; rewrite ?Eb, ?Ef, ?En.
+  - exists p, q. rewrite written_app, Ho, app_nil_r. auto.
+  - intros i n tag Hin. destruct (R i n tag Hin). split; auto. apply client_wrote_more; auto.
+  - exact F.
+Qed.
+
+Lemma stream_stops h s r b :
+  Stream h s ->
+  (exists p q, written h = p ++ b ++ q /\ (s.(alive) && s.(out_open) = true -> q = [])) ->
+  Stream (h ++ [RStep]) (reader_stops s r b).
+Proof.
+  intros [_ R F] (p & q & E & Q).
+  assert (Stream (h ++ [RStep])
+    (mkSt s.(err) s.(closed) s.(term) s.(mu) s.(pending) s.(rname) s.(phase_of) s.(fired)
+          (RStop1 r) s.(seen) b s.(out_open) s.(in_open) s.(alive) s.(aborted) s.(noticed) s.(status) s.(wait_ret))) as K.
+  { constructor; simpl.
+    - exists p, q. rewrite written_app. simpl. rewrite app_nil_r. auto.
+    - intros i n tag Hin. destruct (R i n tag Hin). split; auto. apply client_wrote_more; auto.
+    - exact F. }
+  destruct K as [K1 K2 K3]. destruct r; constructor; simpl in *; auto.
+Qed.
+
+Lemma stream_step X h s a : Inv s -> Stream h s -> Stream (h ++ [a]) (step_with X s a).
+Proof.
+  intros HI HS. destruct a; simpl.
+  - (* SendCheck *)
+    destruct (phase_of s i) eqn:Ph; try (eapply stream_same; eauto; fail).
+    destruct (good_idle_free s i HI Ph) as [_ C0].
+    assert (NF : forall o, ~ In (i, o) (fired s)).
+    { intros o Hin. apply in_fired_cnt in Hin. lia. }
+    destruct HS as [(p & q & E & Q) R F]. constructor; simpl.
+    + exists p, q. rewrite written_app. simpl. rewrite app_nil_r. auto.
+    + intros j n' tag Hin. destruct (R j n' tag Hin). split; [|apply client_wrote_more; auto].
+      upd j i; auto. exfalso. eapply NF; eauto.
+    + intros j n' e Hin. upd j i; [exfalso; eapply NF; eauto|eauto].
+  - (* SendLock *) destruct (phase_of s i); try (eapply stream_same; eauto; fail).
+    destruct (mu s); try (eapply stream_same; eauto; fail).
+    destruct (closed s); [eapply stream_same; eauto|].
+    destruct (lookup (rname s i) (pending s)); eapply stream_same; eauto.
+  - (* WriteOk *) destruct (phase_of s i); try (eapply stream_same; eauto; fail).
+    destruct (alive s && in_open s); eapply stream_same; eauto.
+  - (* WriteFail *) destruct (phase_of s i); try (eapply stream_same; eauto; fail).
+    destruct (in_open s); [eapply stream_same; eauto|].
+    destruct (lookup (rname s i) (pending s)); eapply stream_same; eauto.
+  - (* COut *)
+    destruct HS as [(p & q & E & Q) R F].
+    destruct (alive s && out_open s) eqn:AO.
+    + constructor; simpl.
+      * exists p, []. rewrite written_app. simpl. rewrite E, (Q eq_refl), !app_nil_r, app_assoc. auto.
+      * intros i n tag Hin. destruct (R i n tag Hin). split; auto. apply client_wrote_more; auto.
+      * exact F.
+    + constructor.
+      * exists p, (q ++ bs). rewrite written_app. simpl. rewrite E, <- !app_assoc. split; [reflexivity|]. congruence.
+      * intros i n tag Hin. destruct (R i n tag Hin). split; auto. apply client_wrote_more; auto.
+      * exact F.
+  - (* CCloseOut *) destruct (alive s) eqn:Al; eapply stream_same; eauto; simpl; intros Z; try rewrite andb_false_r in Z; discriminate.
+  - (* CCloseIn *) destruct (alive s) eqn:Al; eapply stream_same; eauto; simpl; rewrite Al; auto.
+  - (* ProcExit *)
+    destruct (alive s) eqn:Al; [|eapply stream_same; eauto].
+    destruct HS as [(p & q & E & Q) R F]. constructor; simpl.
+    + exists p, (buf s ++ q). rewrite written_app. simpl. rewrite app_nil_r. split; [exact E|discriminate].
+    + intros i n tag Hin. destruct (R i n tag Hin). split; auto. apply client_wrote_more; auto.
+    + exact F.
+  - (* ExitNotice *) destruct (negb (alive s) && negb (noticed s)); eapply stream_same; eauto.
+  - (* RStep *)
+    destruct (rd s); try (eapply stream_same; eauto; fail).
+    unfold reader_step. pose proof HS as [(p & q & E & Q) R F].
+    destruct (next_item (buf s)) as [|m rest|rest] eqn:NI.
+    + destruct (out_open s) eqn:Oo; [eapply stream_same; eauto|].
+      apply stream_stops; auto. exists p, (buf s ++ q). split; [exact E|]. rewrite Oo, andb_false_r. discriminate.
+    + destruct (next_item_msg _ _ _ NI) as (pfx & Eb & Lp & Dp).
+      assert (Rest : exists p' q', written h = p' ++ rest ++ q' /\ (alive s && out_open s = true -> q' = [])).
+      { exists (p ++ pfx ++ m), q. rewrite E, Eb, <- !app_assoc. auto. }
+      destruct (decode m) as [[n tag]|] eqn:Dm; [|apply stream_stops; auto].
+      destruct (lookup n (pending s)) as [i|] eqn:Lk; [|apply stream_stops; auto].
+      destruct Rest as (p' & q' & E' & Q').
+      constructor; simpl.
+      * exists p', q'. rewrite written_app. simpl. rewrite app_nil_r. auto.
+      * intros j n' tag' Hin. apply in_app_iff in Hin. destruct Hin as [Hin|[Hin|[]]].
+        -- destruct (R j n' tag' Hin). split; auto. apply client_wrote_more; auto.
+        -- inversion Hin; subst. split.
+           ++ apply (i_name _ HI). apply lookup_some. exact Lk.
+           ++ apply client_wrote_more. exists p, pfx, m, (rest ++ q).
+              rewrite E, Eb, <- !app_assoc. auto.
+      * intros j n' e Hin. apply in_app_iff in Hin. destruct Hin as [Hin|[Hin|[]]]; [eauto|discriminate].
+    + destruct (next_item_over _ _ NI) as (pfx & Eb).
+      apply stream_stops; auto. exists (p ++ pfx), q. rewrite E, Eb, <- !app_assoc. auto.
+  - (* RClose *) destruct (rd s); try (eapply stream_same; eauto; fail). destruct (mu s); eapply stream_same; eauto.
+  - (* RDrain *)
+    destruct (rd s); try (eapply stream_same; eauto; fail).
+    destruct HS as [(p & q & E & Q) R F]. constructor; simpl.
+    + exists p, q. rewrite written_app. simpl. rewrite app_nil_r. auto.
+    + intros j n' tag' Hin. apply in_app_iff in Hin. destruct Hin as [Hin|Hin].
+      * destruct (R j n' tag' Hin). split; auto. apply client_wrote_more; auto.
+      * apply in_map_iff in Hin. destruct Hin as ([m k] & Z & _). discriminate.
+    + intros j n' e Hin. apply in_app_iff in Hin. destruct Hin as [Hin|Hin]; [eauto|].
+      apply in_map_iff in Hin. destruct Hin as ([m k] & Z & Hin). simpl in Z. inversion Z; subst.
+      apply (i_name _ HI). exact Hin.
+  - (* CloseSend *) destruct (mu s); eapply stream_same; eauto.
+  - (* Stop *) eapply stream_same; eauto.
+  - (* Wait *) destruct (rd s); eapply stream_same; eauto.
+Qed.
+
+Lemma run_with_snoc X h a : run_with X (h ++ [a]) = step_with X (run_with X h) a.
+Proof. unfold run_with. rewrite fold_left_app. reflexivity. Qed.
+
+Lemma stream_run X h : Stream h (run_with X h).
+Proof.
+  induction h as [|a h IH] using rev_ind; [apply stream_init|].
+  rewrite run_with_snoc. apply stream_step; [apply inv_run_with|exact IH].
+Qed.
+
+Theorem own_response_proof : forall h i n tag,
+  In (i, OResp n tag) (run h).(fired) -> (run h).(rname) i = n /\ client_wrote h n tag.
+Proof. intros h i n tag Hin. apply (s_resp _ _ (stream_run true h)). exact Hin. Qed.
+
+Theorem failure_names_request_proof : forall h i n e,
+  In (i, OFail n e) (run h).(fired) -> (run h).(rname) i = n.
+Proof. intros h i n e Hin. apply (s_fail _ _ (stream_run true h) i n e). exact Hin. Qed.
+
+(* a well-formed answer to a pending request is delivered to that request's callback *)
+Theorem response_delivered_proof : forall s m rest n tag i,
+  s.(rd) = RRun -> next_item s.(buf) = IMsg m rest -> decode m = Some (n, tag) ->
+  lookup n s.(pending) = Some i ->
+  (step s RStep).(fired) = s.(fired) ++ [(i, OResp n tag)] /\ (step s RStep).(rd) = RRun.
+Proof.
+  intros s m rest n tag i Rd NI Dm Lk. unfold step. simpl. rewrite Rd. unfold reader_step.
+  rewrite NI, Dm, Lk. simpl. auto.
+Qed.
+
+Theorem refused_after_failure_proof : forall h h' i,
+  reader_gone (run h) -> not_called (run h) i ->
+  let s := run (h ++ h') in
+  ~ accepted s i /\ s.(phase_of) i <> Writing /\ times_fired i s = 0%nat.
+Proof.
+  intros h h' i Hg. apply refused_after_proof.
+  destruct Hg as [Hf|[[r Hr]|He]].
+  - destruct (after_failure_proof h [] Hf) as [S _]. rewrite app_nil_r in S. exact S.
+  - right. pose proof (i_closed _ (inv_run h)) as C. rewrite Hr in C. exact C.
+  - right. apply nothing_pending_after_exit_proof. exact He.
+Qed.
